@@ -165,6 +165,13 @@ func (m *Map[K, V]) MarshalJSON() ([]byte, error) {
 		if err != nil {
 			return nil, err
 		}
+		if len(km) == 0 || km[0] != '"' {
+			// JSON object keys must be strings
+			km, err = json.Marshal(string(km))
+			if err != nil {
+				return nil, err
+			}
+		}
 		buf.Write(km)
 
 		buf.WriteRune(':')
